@@ -52,12 +52,24 @@ package base
 // t is a one-decimal threshold 51.0 .. 100.0: one of the float64 values
 // strconv.ParseFloat returns for those texts (decimal1); t10 is 10*t exactly.
 //@ func (Threshold).Threshold
-//@   prop C02
+//@   prop C02, C01
+//@   pure
 //@   opt cases decimal1 t 510 1000
 //@   requires decimal1(t, 510, 1000)
 //@   requires 1 <= quorum && quorum <= 4294967296
 //@   ensures [ceil-upper] r0 * 1000 >= quorum * decimal1val(t, 510, 1000)
 //@   ensures [ceil-least] (r0 - 1) * 1000 < quorum * decimal1val(t, 510, 1000)
+
+// C01: the tally a threshold reports is the tally of its required count
+// (FindVoteResult's map-based counting itself is not under contract: trusted
+// as a function of its arguments).
+//@ func FindVoteResult
+//@   trusted
+//@   pure
+//@ func (Threshold).VoteResult
+//@   prop C01
+//@   requires decimal1(t, 510, 1000) && 1 <= quorum && quorum <= 4294967296
+//@   ensures r0 == fst(FindVoteResult(quorum, t.Threshold(quorum), set)) && r1 == snd(FindVoteResult(quorum, t.Threshold(quorum), set))
 
 // ---- C14: block-map chain validation ---------------------------------------------
 //
